@@ -38,4 +38,37 @@ CLAIMS["C17"] = {
     "note": BASE_NOTE, "ref": "DESIGN.md 7 (C17)",
 }
 
+CLAIMS["C07"] = {
+    "text": "Theorems C07.build_is_encoding (for every command, transport, address value and TLV list within 65535 bytes the builder model returns "
+            "exactly Spec.V2.encode of them), parses_back (from C02), tlvs_back (from C11) and type_codes (code tables = protocol tables). "
+            "Correspondence: generated programs of that shape incl. payload totals of exactly 65535, each parsed back by the real parser; the "
+            "code table compared exhaustively through the public API.",
+    "note": BASE_NOTE, "ref": "DESIGN.md 7 (C07)",
+}
+CLAIMS["C09"] = {
+    "text": "Theorems C09.length_field (any constructor, any call history: on success the field is the explicit length in force, else the actual "
+            "payload size), overflow_fails, oversized_value_fails; by induction over call histories with the invariant V2.Shape. "
+            "Correspondence: random programs, set_length inserted at every position, totals steered to 65534..65537 and to the writer guard.",
+    "note": BASE_NOTE + " Model includes the D7 repair (fix: commit in /repo).", "ref": "DESIGN.md 7 (C09), 8 (D7)",
+}
+CLAIMS["C10"] = {
+    "text": "Theorems C10.output_is_reference(_with) (a successful history returns Spec.Builder.reference: signature, control bytes, length, "
+            "construction-time address block, payload encodings in call order), reserve_irrelevant, batch_irrelevant (bisimulation V2.Sim), "
+            "tlv_pair_same. Correspondence: random programs each with five metamorphic variants, boundary totals.",
+    "note": BASE_NOTE, "ref": "DESIGN.md 7 (C10)",
+}
+CLAIMS["C13"] = {
+    "text": "Theorems C13.rebuild_raw, rebuild_items, rebuild_from_addresses: for every accepted header (any input) the builder fed with the "
+            "header's own views returns exactly the header bytes. From C02 + C14 + C11 + builder success lemmas. Correspondence: op `rb` "
+            "(parse, rebuild four ways through the real views and builder) on generated headers incl. malformed sections and 65535-byte payloads.",
+    "note": BASE_NOTE, "ref": "DESIGN.md 7 (C13)",
+}
+CLAIMS["C20"] = {
+    "text": "Theorems C20.write_appends_encoding, success_condition (exact), success_below_limit, oversize_refused, failure_keeps_prefix, "
+            "to_bytes, int_big_endian, tlv_pair_same for every value of the Payload type and every writer content. Correspondence: op `wr` over "
+            "all integer widths at min/max/random, all address kinds, value lengths {0,1,255,256,65535,65536}, writers pre-filled to the guard.",
+    "note": BASE_NOTE + " 'A writer below its size limit' is read as: the guard does not trip during the write (DESIGN.md 7, C20).",
+    "ref": "DESIGN.md 7 (C20)",
+}
+
 NOT_YET = {}
